@@ -15,6 +15,9 @@ Labels(k) ==
     [] k = "mutable_binsalt" ->
          \* the requested salt is not valid UTF-8; colliding_salt = the key's item for a salt that differs only in such bytes
          {"authentic", "colliding_salt", "other_salt", "unsalted", "bad_sig", "replay_of_authentic"}
+    [] k = "mutable_via_peers" ->
+         \* a get_mutable caller joins a running get_peers lookup of the same target whose responders send mutable-shaped answers
+         {"authentic", "wrong_key", "bad_sig", "sig_by_other_key", "flipped_v", "other_salt"}
     [] k \in {"mutable", "mutable_salt"} ->
          {"authentic", "wrong_key", "other_salt", "bad_sig", "flipped_seq", "flipped_v", "sig_by_other_key", "as_immutable", "short_key", "replay_of_authentic"}
     [] k = "signed_peers" -> {"authentic", "all_bad", "wrong_infohash", "mixed_first_bad", "mixed_last_bad", "mixed_middle_bad", "wrong_key"}
